@@ -18,7 +18,10 @@ import (
 	"github.com/pion/rtcp"
 )
 
-const canarySeeds = 10
+const (
+	canarySeeds  = 10
+	canaryNarrow = 8
+)
 
 func fnv(h uint64, s string) uint64 {
 	for i := 0; i < len(s); i++ {
@@ -49,8 +52,13 @@ func canaryDigests() map[string]string {
 		acc[k] = fnv(h, s+"\x00")
 	}
 	for kind := 0; kind < numKinds; kind++ {
-		for i := 0; i < canarySeeds; i++ {
+		for i := 0; i < canarySeeds+canaryNarrow; i++ {
 			seed := uint64(0xC0FFEE00 + 977*kind + i)
+			if i >= canarySeeds {
+				// values over the same few sources and texts that the narrow runs of every batch use: whatever a
+				// history leaves behind under those keys shows here
+				seed |= narrowBit
+			}
 			p := genPacket(kind, seed)
 			var enc []byte
 			add("Marshal", kind, canaryCall(func() string {
